@@ -286,7 +286,8 @@ def run_bank(case):
 # ------------------------------------------------------------- time domain
 def fir_pool():
   return [[1.0], [1.0, 1.0], [1.0, -1.0], [0.5, 0.25, -0.125], [2.0, 0.0, 1.0, -3.0], [0.0, 0.0, 1.0],
-          [1.0, 2.0, 3.0, 4.0, 5.0], [-1.0, 0.5, 0.0, 0.0, 0.25, 2.0]]
+          [1.0, 2.0, 3.0, 4.0, 5.0], [-1.0, 0.5, 0.0, 0.0, 0.25, 2.0]] + \
+         [[float(((7 * k * k + 3 * k) % 11) - 5) / 4 or 0.25 for k in range(n)] for n in (33, 65, 130)]     # long responses
 
 
 def gen_time(run):
@@ -294,7 +295,7 @@ def gen_time(run):
   for hi, h in enumerate(fir_pool()):
     yield ("dft-vs-response", hi, n)
     yield ("exponential", hi, n)
-  for L in (1, 2, 3, 5, 8):
+  for L in (1, 2, 3, 5, 8, 33, 64, 65, 200):
     for which in ("defining-sum", "multi-frequency", "linearity", "dc-mean"):
       yield (which, L, n)
 
@@ -338,6 +339,8 @@ def run_time(case):
     return R(None, len(h) > 2, which)
   L = arg
   blk = [F(v) for v in [3, -1, F(1, 2), 4, -2, 0, 7, 1][:L]]
+  if L > 8:
+    blk = [F(((5 * k * k + k) % 13) - 6, 2) for k in range(L)]
   fl = [float(v) for v in blk]
   if which == "defining-sum":
     for w in ws:
@@ -360,7 +363,7 @@ def run_time(case):
                      "defining sum, in the order given", {"w": w, "X": str(e)}, str(v))
     return R(None, True, which)
   if which == "linearity":
-    other = [float(v) for v in [1, 2, -3, 0.5, 0, 1, 1, -1][:L]]
+    other = [float(v) for v in ([1, 2, -3, 0.5, 0, 1, 1, -1] * (L // 8 + 1))[:L]]
     for w in ws[:10]:
       a, b = 2.5, -0.75
       lhs = dft([a * x + b * y for x, y in zip(fl, other)], [w])[0]
